@@ -14,6 +14,7 @@ from __future__ import annotations
 
 import contextlib
 import hashlib
+import errno
 import threading
 import time
 
@@ -168,6 +169,14 @@ def run_round(res, case, attempt=0):
                                str(context.supported_ts), canon(_strip(d))))
             return statuses.SUCCESS
 
+        def get_file(self, context, command_set):
+            # the storage fails for one instance of one association (disk full for that file):
+            # that is this association's problem only
+            if str(command_set.AffectedSOPInstanceUID) in faulty:
+                res.count('sim.storage-fault-on-one-association')
+                raise OSError(errno.ENOSPC, 'No space left on device')
+            return super().get_file(context, command_set)
+
         def on_receive_find(self, context, ds):
             tag = str(ds.PatientID)
             with lock:
@@ -185,7 +194,7 @@ def run_round(res, case, attempt=0):
         rc = rng(seed, 'c20-client', k, c)
         fate = 'healthy'
         if c % 3 == 2:
-            fate = rc.choice(['abort', 'reset'])
+            fate = rc.choice(['abort', 'reset', 'storage-fault'])
         nst = rc.choice([1, 2, 3, 5])
         sizes = [rc.choice([10, 500, 5000, 40000]) for _ in range(nst)]
         plans.append({'tag': 'CL%d-%d' % (k, c), 'fate': fate, 'sizes': sizes,
@@ -194,6 +203,8 @@ def run_round(res, case, attempt=0):
                       'ops': rc.sample(['echo', 'find', 'store'], 3)})
     results = [None] * n
     shared = None
+    faulty = set('1.2.826.20.%d.%s.%d' % (k, p['tag'].split('-')[1], p['cut_after'])
+                 for p in plans if p['fate'] == 'storage-fault')
 
     def make_client(p):
         ae = applicationentity.ClientAE('CLIENT', supported_ts=[p['ts']], max_pdu_length=p['max'])
@@ -236,7 +247,7 @@ def run_round(res, case, attempt=0):
                     else:
                         service = assoc.get_scu(p['sop'])
                         for j in range(len(p['sizes'])):
-                            if p['fate'] != 'healthy' and j == p['cut_after']:
+                            if p['fate'] in ('abort', 'reset') and j == p['cut_after']:
                                 out['aborted_at'] = j
                                 if p['fate'] == 'reset':
                                     sock = assoc.dul.dul_socket
@@ -324,7 +335,14 @@ def run_round(res, case, attempt=0):
             # aborting / reset clients: what the server saw is a prefix of what they sent
             sent = out['sent']
             seen = [(i, h) for i, cid, ts, h in mine]
-            if seen != sent[:len(seen)]:
+            if p['fate'] == 'storage-fault':
+                # whatever the association does after its storage failed: the handler saw only
+                # instances that were sent, in order, and never the one that could not be stored
+                it = iter(sent)
+                ok = all(any(x == y for y in it) for x in seen) and not any(i in faulty for i, h in seen)
+            else:
+                ok = seen == sent[:len(seen)]
+            if not ok:
                 res.violation('server-saw-other-data', 'C20.client',
                               '%s: aborting client %s sent %r, server saw %r' % (
                                   where, tag, [s[0][-6:] for s in sent], [m[0][-6:] for m in mine]), case)
